@@ -210,6 +210,18 @@ struct cds_lfq_node_rcu *_cds_lfq_dequeue_rcu(struct cds_lfq_queue_rcu *q)
 			enqueue_dummy(q);
 			next = rcu_dereference(head->next);
 		}
+		/*
+		 * Never let head pass a lagging tail: an enqueuer may have
+		 * linked next after head without having moved tail yet.
+		 * If head were removed now, it would stay reachable through
+		 * q->tail for enqueuers starting after the removal, which
+		 * the grace period awaited by the owner of the dequeued
+		 * node does not cover. Help moving tail first (it only
+		 * moves forward, so it cannot come back to head).
+		 */
+		if (rcu_dereference(q->tail) == head)
+			(void) uatomic_cmpxchg_mo(&q->tail, head, next,
+						CMM_SEQ_CST, CMM_SEQ_CST);
 		if (uatomic_cmpxchg_mo(&q->head, head, next,
 					CMM_SEQ_CST, CMM_SEQ_CST) != head)
 			continue;	/* Concurrently pushed. */
